@@ -86,17 +86,51 @@ def _setup_block(engine, st):
     sid = Val.id(ex.t)
     engine.cfg.throttles = [sid]
     tv = sym_val(engine, st, OPT("int"), "throttle_val")
-    return [ex, tv], {}, {"sid": sid, "tv": tv}
+    hid = Val.id(st.get("_shutdown", sid))
+    st.assume(z3.And(Val.is_boolv(st.get("_block", sid)), Val.is_boolv(st.get("is_shutdown", hid))))
+    ctx = {"sid": sid, "tv": tv}
+    engine.cfg.block_ctx = ctx
+    return [ex, tv], {}, ctx
+
+
+def _block_facts(st, ctx):
+    sid = ctx["sid"]
+    hid = Val.id(st.get("_shutdown", sid))
+    tv = ctx["tv"].t
+    qlen = st.get("$len", Val.id(st.get("_to_submit", sid)))
+    return (Val.b(st.get("_block", sid)), Val.b(st.get("is_shutdown", hid)), Val.is_none(tv), qlen, Val.i(tv))
 
 
 def _post_block(engine, st, ctx, out):
-    return [("blocking-mode guard is defined for every count value (int or None)", "EX", not isinstance(out, Raise), ["C07", "C18"])]
+    cl = [("blocking-mode guard is defined for every count value (int or None)", "EX", not isinstance(out, Raise), ["C07", "C18"])]
+    if not isinstance(out, Raise):
+        blk, shut, none, qlen, tvi = _block_facts(st, ctx)
+        cl.append(("submit() gets past the guard only if it need not block: non-blocking mode, executor shut down, unlimited count, or the queue holds FEWER than count "
+                   "entries (sequential reading of the guard: the queue length is the one just read)", "PC",
+                   z3.Or(z3.Not(blk), shut, none, qlen < tvi), ["C07"]))
+    return cl
 
 
 def _block_loop():
     def body_post(engine, st, fr, ctx, events):
-        return []
-    return LoopSpec()
+        c = engine.cfg.block_ctx
+        blk, shut, none, qlen, tvi = _block_facts(ctx["head"], c)
+        waits = [(i, e) for i, e in enumerate(events) if e.kind == "event-wait"]
+        clears = [(i, e) for i, e in enumerate(events) if e.kind == "event-clear"]
+        space = Val.id(st.get("_space_event", c["sid"]))
+        ok = len(waits) == 1 and len(clears) == 1 and clears[0][0] < waits[0][0]
+        return [("submit() blocks only in blocking mode, on a live executor, while the queue already holds count entries", z3.And(blk, z3.Not(shut), z3.Not(none), qlen >= tvi)),
+                ("one round of blocking = clear the submitter's event, look at the queue, wait on that event - for a bounded time",
+                 z3.And(z3.BoolVal(ok), waits[0][1].recv == space if ok else False, clears[0][1].recv == space if ok else False,
+                        z3.BoolVal(ok and waits[0][1].args[0] is not None)))]
+    return LoopSpec(body_post=body_post)
+
+
+def _cfg_block():
+    cfg = _cfg()
+    cfg.concurrent = False          # the guard's own logic; what other threads do meanwhile only makes its reading of the queue stale
+    cfg.loops[("more_executors._impl.throttle.ThrottleExecutor._block_until_ready", 0)] = _block_loop()
+    return cfg
 
 
 # ---- _delegate_future_done (W1: signal after change) --------------------------------------------
@@ -113,7 +147,12 @@ def _post_done(engine, st, ctx, out):
     cl = [("completion callback does not raise", "EX", not isinstance(out, Raise), ["C07", "C18"])]
     writes = [k for k, e in enumerate(st.trace) if e.kind == "write" and e.meth == "value"]
     sets = [k for k, e in enumerate(st.trace) if e.kind == "event-set"]
-    cl.append(("the in-flight counter is decremented exactly once", "PC", len(writes) == 1, ["C07"]))
+    cl.append(("the in-flight counter is decremented exactly once for every finished delegate future, however it finished (a slot that is not given "
+               "back starves every later submission)", "PC", len(writes) == 1, ["C07", "C03"]))
+    if len(writes) == 1:
+        w = st.trace[writes[0]]
+        cl.append(("a finished delegate future gives its slot back: the counter goes DOWN by exactly one, under the counter's own lock", "PC",
+                   z3.And(Val.i(w.args[0]) == Val.i(w.extra["old"]) - 1, z3.BoolVal(any(h[3] == "lock" for h in w.held)), w.recv == Val.id(ctx["rc"].t) if "rc" in ctx else z3.BoolVal(True)), ["C07", "C03"]))
     cl.append(("W1 signal-after-change: the hand-over thread is woken after the counter was decremented", "WK",
                bool(writes) and bool(sets) and max(sets) > max(writes), ["C07", "C03"]))
     if sets:
@@ -130,7 +169,7 @@ UNITS = [
     Unit("ThrottleExecutor._eval_throttle", "throttle.ThrottleExecutor._eval_throttle", ["C07", "C18"], _setup_eval, _post_eval,
          cfg=_cfg, self_cls="ThrottleExecutor"),
     Unit("ThrottleExecutor._block_until_ready", "throttle.ThrottleExecutor._block_until_ready", ["C07", "C18"], _setup_block, _post_block,
-         cfg=_cfg, self_cls="ThrottleExecutor"),
+         cfg=_cfg_block, self_cls="ThrottleExecutor"),
     Unit("ThrottleExecutor._delegate_future_done", "throttle.ThrottleExecutor._delegate_future_done", ["C07", "C03", "C18"], _setup_done, _post_done,
          cfg=_cfg, self_cls="ThrottleExecutor"),
 ]
@@ -199,6 +238,8 @@ def _cfg_iter():
         out.append(("at every commit the in-flight counter stays within the count read in this iteration (None = unlimited)",
                     z3.Implies(z3.Not(Val.is_none(tt)), Val.i(incs[0].args[0]) <= Val.i(tt))))
         out.append(("the counter is the executor's own in-flight counter", incs[0].recv == Val.id(st.get("_running_count", sid))))
+        out.append(("a commit takes one slot: the counter goes UP by exactly one, under the counter's own lock",
+                    z3.And(Val.i(incs[0].args[0]) == Val.i(incs[0].extra["old"]) + 1, z3.BoolVal(any(h[3] == "lock" for h in incs[0].held)))))
         out.append(("THROTTLE_QUEUE gauge is decremented exactly once per dequeued job, in the same critical section",
                     z3.BoolVal(len(decs) == 1 and decs[0].meth == "dec" and all(any(h[3] == "_lock" and h[2] is not None and z3.is_true(z3.simplify(h[2] == Val.id(exv.t))) for h in (e.held or [])) for e in decs))))
         return out
@@ -224,7 +265,10 @@ def _setup_iter(engine, st):
     st.assume(engine.ty_formula(st, st.get("_last_throttle", sid), OPT("int")))
     st.assume(Val.is_none(st.get("$code", Val.id(st.get("_throttle", sid)))))
     st.assume(Val.is_intv(st.get("value", Val.id(rc.t))))
-    return [ex], {}, {"sid": sid, "rid": Val.id(rc.t), "ex": ex}
+    from .base import StopFlags
+    flags = StopFlags(engine, st, ex)
+    flags.install(engine.cfg)
+    return [ex], {}, {"sid": sid, "rid": Val.id(rc.t), "ex": ex, "flags": flags}
 
 
 def _post_iter(engine, st, ctx, out):
@@ -234,9 +278,8 @@ def _post_iter(engine, st, ctx, out):
         cl.append(("hand-over step does not raise by itself", "EX", False, ["C18", "C07"]))
         return cl
     from pyvc.vals import TupleV
+    cl += ctx["flags"].clauses(st, out is None, ["C11", "C12", "C07"], "the hand-over scan")
     if out is None:
-        cl.append(("the scan says stop only after shutdown / interpreter exit", "PC",
-                   z3.BoolVal(any(("is_shutdown" in a) and b for a, b in st.decisions)), ["C11", "C12"]))
         return cl
     ok = isinstance(out, TupleV) and len(out.items) == 2
     cl.append(("otherwise the scan answers (event, wait time)", "WK", z3.BoolVal(ok), ["C07", "C03"]))
@@ -244,8 +287,14 @@ def _post_iter(engine, st, ctx, out):
         ev, wt = out.items
         cl.append(("the event handed back is the executor's own wake-up event", "WK", engine.to_val(st, ev) == st.get("_event", ctx["sid"]), ["C07", "C03"]))
         w = engine.to_val(st, wt)
-        cl.append(("the wait is always bounded (the count may be a function of time: re-evaluated after at most 30 s, 2 s when nothing runs)", "WK",
-                   z3.And(z3.Not(Val.is_none(w)), z3.Or(w == Val.realv(z3.RealVal(30)), w == Val.realv(z3.RealVal(2)))), ["C07", "C03"]))
+        rcv = Val.i(st.get("value", ctx["rid"]))
+        cl.append(("the wait is always bounded (the count may be a function of time): 30 s while something is in flight - its completion will wake the thread "
+                   "anyway -, 2 s when nothing runs and no completion can be expected", "WK",
+                   z3.And(z3.Not(Val.is_none(w)), z3.Or(w == Val.realv(z3.RealVal(30)), w == Val.realv(z3.RealVal(2))),
+                          z3.BoolVal(any(a == "executor._running_count.value" for a, b in st.decisions))), ["C07", "C03"]))
+        nz = [b for a, b in st.decisions if a == "executor._running_count.value"]
+        if nz:
+            cl.append(("... the short wait is chosen exactly when the counter read zero", "WK", (w == Val.realv(z3.RealVal(30))) if nz[-1] else (w == Val.realv(z3.RealVal(2))), ["C07", "C03"]))
     return cl
 
 
@@ -353,6 +402,8 @@ def _post_do_cancel(engine, st, ctx, out):
     r = engine.truth(st, out)
     r = z3.BoolVal(r) if isinstance(r, bool) else r
     cl.append(("returns True exactly when a queued job was removed", "PC", r == z3.BoolVal(len(pops) == 1), ["C06", "C07"]))
+    cl.append(("a queued job holds no slot: cancelling it leaves the in-flight counter alone (a slot is taken at hand-over and given back by the delegate future's completion, nowhere else)", "PC",
+               z3.BoolVal(not [e for e in st.trace if e.kind == "write" and e.meth == "value"]), ["C07"]))
     if pops:
         cl.append(("the job removed from the queue is the one of the future being cancelled", "PC",
                    st.get("future", Val.id(pops[0].args[0])) == ctx["fut"].t, ["C06", "C07"]))
@@ -372,7 +423,7 @@ def _cfg_submit():
     cfg.protected.update({"_to_submit": "_lock", "is_shutdown": "_lock"})
     from .base import RecordCall
     cfg.contracts["more_executors._impl.throttle.ThrottleExecutor._block_until_ready"] = RecordCall()
-    cfg.contracts["more_executors._impl.throttle.ThrottleExecutor._eval_throttle"] = RecordCall()
+    cfg.contracts["more_executors._impl.throttle.ThrottleExecutor._eval_throttle"] = RecordCall(ret_fn=lambda e, s: Z(fresh("count_now", Val), "any"))
     cfg.contracts["more_executors._impl.metrics.track_future"] = TrackFuture()
     return cfg
 
@@ -410,6 +461,15 @@ def _post_submit(engine, st, ctx, out):
         cl.append(("submit raises only RuntimeError (after shutdown), enqueuing nothing", "PC",
                    z3.BoolVal(cn == "RuntimeError" and not apps), ["C11", "C07"]))
         return cl
+    from .base import track_clause
+    cl.append(track_clause(engine, st, engine.to_val(st, out), "throttle", st.get("_name", sid)))
+    # blocking mode: the wait for room happens first, with the count evaluated for this very call
+    blk = [(i, e) for i, e in enumerate(st.trace) if e.kind == "repo-call" and e.meth.endswith("._block_until_ready")]
+    evs = [(i, e) for i, e in enumerate(st.trace) if e.kind == "repo-call" and e.meth.endswith("._eval_throttle")]
+    if blk or evs or any(k.endswith("._block_until_ready") for k in engine.cfg.contracts):
+        cl.append(("submit() first waits for room (blocking mode) with a freshly evaluated count, then enqueues", "PC",
+                   z3.And(z3.BoolVal(len(blk) == 1 and len(evs) == 1 and len(apps) == 1 and evs[0][0] < blk[0][0] < apps[0][0]),
+                          blk[0][1].args[1] == evs[0][1].ret if blk and evs and evs[0][1].ret is not None else z3.BoolVal(False)), ["C07"]))
     cl.append(("exactly one job is enqueued, at the TAIL of the queue", "PC",
                z3.And(z3.BoolVal(len(apps) == 1 and apps[0][1].meth == "append"),
                       apps[0][1].recv == Val.id(st.get("_to_submit", sid))) if len(apps) == 1 else False, ["C07", "C01"]))
